@@ -86,6 +86,7 @@ type world struct {
 	mediaType string
 	value     any
 	raw       []byte // reader payloads
+	inspect   bool   // the auth writer looks at method, path, headers, query, payload and files before asking for the body
 	memKind   int    // memreader: 0 *bytes.Buffer 1 *bytes.Reader 2 *strings.Reader
 	rawStream *kernel.Stream
 	fields    []struct {
@@ -165,7 +166,7 @@ func (w *world) WriteToRequest(req runtime.ClientRequest, _ strfmt.Registry) err
 		_ = req.SetHeaderParam("Content-Type", w.presetCT) // a stale header left by the caller must not survive
 	}
 	for _, f := range w.fields {
-		_ = req.SetFormParam(f.name, f.values...)
+		_ = req.SetFormParam(f.name, append([]string(nil), f.values...)...) // the request gets its own copy of what the oracle compares against
 	}
 	switch w.kind {
 	case "value":
@@ -208,6 +209,9 @@ func (w *world) WriteToRequest(req runtime.ClientRequest, _ strfmt.Registry) err
 }
 
 func (w *world) AuthenticateRequest(req runtime.ClientRequest, _ strfmt.Registry) error {
+	if w.inspect {
+		simhttp.Inspect(req)
+	}
 	for i := 0; i < w.getBody; i++ {
 		b := req.GetBody()
 		w.getBodies = append(w.getBodies, append([]byte(nil), b...))
@@ -232,6 +236,7 @@ func genWorld(tape *kernel.Tape, env *kernel.Env, idx int) (*world, bool) {
 	}
 	w.getBody = tape.Weighted("getbody", 3, 3, 2, 1)
 	useAuth := w.getBody > 0 || tape.Bool(3, "auth-without-getbody")
+	w.inspect = useAuth && tape.Bool(3, "auth-writer-inspects-the-request")
 	w.fault = tape.Bool(6, "source-fault?")
 	transient := w.fault && tape.Bool(2, "transient?")
 	switch w.kind {
